@@ -1,6 +1,7 @@
 package props
 
 import (
+	"go/constant"
 	"fmt"
 	"go/ast"
 	"go/token"
@@ -310,7 +311,16 @@ func onlyReturnsError(info *types.Info, body []ast.Stmt) bool {
 			return false // return f(x): forwards value and error of a helper
 		}
 	}
-	return !core.IsNilIdent(info, ret.Results[len(ret.Results)-1])
+	last := ret.Results[len(ret.Results)-1]
+	if core.IsNilIdent(info, last) {
+		return false
+	}
+	// a rejection is an error value — or, in a helper that reports acceptance through a final
+	// `ok bool`, the constant false
+	if tv, has := info.Types[last]; has && tv.Value != nil && tv.Value.Kind() == constant.Bool {
+		return !constant.BoolVal(tv.Value)
+	}
+	return true
 }
 
 // bitSizes (R-FLOW/F2): strconv bit sizes and narrowing conversions feeding
